@@ -6,5 +6,6 @@ CONSTANTS NClasses = 2
  MaxMarks = 1
  WithDeps = TRUE
  MaxDeps = 2
+ OnlyFaulty = FALSE
 INVARIANT Emit
 CHECK_DEADLOCK FALSE
